@@ -1,6 +1,7 @@
 import Upd.C08
 import Upd.Cas2
 import Upd.Frame
+import Sess.Proofs
 /-!
 # C08 — upload sessions are strictly sequential, isolated and leave no residue
 
@@ -118,4 +119,38 @@ theorem close_stores_written (s : State) (r : String) (u : Upload) (h : (closeUp
 
 -- non-vacuity: a concrete session that is closed stores its bytes
 example : (closeUpload {} "r" { key := 1, alg := .sha256, expect := none, buf := "ab", hashed := "ab" }).2 = true := rfl
+/-! ### the session object itself (store level)
+
+Two requests that address one session hold the same object (`BlobSession` hands it out, the handlers use it without a
+lock of their own), so every call sequence on one object is reachable: a `Cancel` behind a completed `Close`, writes
+after the end, two closes.  Model `Sess` (lean/Sess/Basic.lean), both stores; tie: every call sequence up to a length on
+the real objects of the memory, directory and memory-over-directory stores, outcome of each call and the publication
+at the end compared with `Sess.run` (harness/inpkg/store/upload_harness_test.go, driver `sessdriver`). -/
+
+/-- "on completion the stored blob is the concatenation of the accepted chunks": whatever is called on a session object,
+    in any order and any number of times, everything it has published is exactly the chunks it accepted, in order, and it
+    publishes nothing while the session is open -/
+theorem session_object_publishes_accepted (dir : Bool) (calls : List Sess.Op) :
+    ((Sess.run dir {} calls).1.ended = false → (Sess.run dir {} calls).1.published = []) ∧
+    ∀ p ∈ (Sess.run dir {} calls).1.published, p = (Sess.run dir {} calls).1.written :=
+  Sess.run_inv dir calls {} Sess.inv_init
+
+/-- "a session … ceases to exist after completion, cancellation …": once a session has ended no call sequence makes the
+    object accept another byte or come back to life -/
+theorem session_object_inert_after_end (dir : Bool) (s : Sess.S) (he : s.ended = true) (calls : List Sess.Op) :
+    (Sess.run dir s calls).1.ended = true ∧ (Sess.run dir s calls).1.written = s.written :=
+  Sess.run_ended dir calls s he
+
+/-- a chunk is refused exactly when the session has ended -/
+theorem session_object_write_refused_iff (dir : Bool) (s : Sess.S) (c : Nat) :
+    (Sess.step dir s (.w c)).2 = .err ↔ s.ended = true :=
+  Sess.write_refused_iff dir s c
+
+/-- what the object has published is not withdrawn by any later call on it -/
+theorem session_object_keeps_published (dir : Bool) (s : Sess.S) (o : Sess.Op) (p : List Nat) (hp : p ∈ s.published) :
+    p ∈ (Sess.step dir s o).1.published :=
+  Sess.step_published_mono dir s o p hp
+
+-- non-vacuity: a completed session has published its two chunks; a Cancel behind the Close changes nothing
+example : (Sess.run false {} [.w 1, .w 2, .close, .cancel, .w 1]).1.published = [[1, 2]] := by decide
 end C08
